@@ -63,7 +63,7 @@ func (c *cancelCtx) Deadline() (time.Time, bool) {
 }
 func (c *cancelCtx) Done() *vchan.Chan[struct{}] { return c.done }
 func (c *cancelCtx) Err() error {
-	vrt.Point("ctx.err", nil)
+	vrt.Point("ctx.err", nil, c)
 	return c.err
 }
 func (c *cancelCtx) Value(key any) any { return c.parent.Value(key) }
@@ -82,6 +82,7 @@ func (c *cancelCtx) cancel(err, cause error) {
 		return
 	}
 	c.err = err
+	vrt.Touch(c)
 	if cause == nil {
 		cause = err
 	}
@@ -137,7 +138,7 @@ func WithCancel(parent Context) (Context, CancelFunc) {
 		if vrt.Aborting() {
 			return
 		}
-		vrt.Point("ctx.cancel", nil)
+		vrt.Point("ctx.cancel", nil, c)
 		c.cancel(Canceled, nil)
 	}
 }
@@ -148,14 +149,14 @@ func WithCancelCause(parent Context) (Context, CancelCauseFunc) {
 		if vrt.Aborting() {
 			return
 		}
-		vrt.Point("ctx.cancel", nil)
+		vrt.Point("ctx.cancel", nil, c)
 		c.cancel(Canceled, cause)
 	}
 }
 
 func Cause(c Context) error {
 	if cc := findCancel(c); cc != nil {
-		vrt.Point("ctx.err", nil)
+		vrt.Point("ctx.err", nil, cc)
 		return cc.cause
 	}
 	return c.Err()
@@ -170,7 +171,7 @@ func WithDeadline(parent Context, d time.Time) (Context, CancelFunc) {
 			if vrt.Aborting() {
 				return
 			}
-			vrt.Point("ctx.cancel", nil)
+			vrt.Point("ctx.cancel", nil, c)
 			c.cancel(Canceled, nil)
 		}
 	}
@@ -185,7 +186,7 @@ func WithDeadline(parent Context, d time.Time) (Context, CancelFunc) {
 		if vrt.Aborting() {
 			return
 		}
-		vrt.Point("ctx.cancel", nil)
+		vrt.Point("ctx.cancel", nil, c)
 		c.cancel(Canceled, nil)
 	}
 }
@@ -235,7 +236,7 @@ func AfterFunc(ctx Context, f func()) (stop func() bool) {
 	if cc == nil {
 		return func() bool { return true }
 	}
-	vrt.Point("ctx.afterfunc", nil)
+	vrt.Point("ctx.afterfunc", nil, cc)
 	if cc.err != nil {
 		vrt.Go(f)
 		return func() bool { return false }
@@ -250,7 +251,7 @@ func AfterFunc(ctx Context, f func()) (stop func() bool) {
 		f()
 	})
 	return func() bool {
-		vrt.Point("ctx.afterfunc.stop", nil)
+		vrt.Point("ctx.afterfunc.stop", nil, cc)
 		if ran || stopped {
 			return false
 		}
